@@ -124,6 +124,8 @@ def check(ix, rep):
                 elif attr in cow:
                     rep.ok('R-ATTR', f.module.rel, sym, '%s:self.%s' % (slotp, attr),
                            'read only after an early return guarded on %s, which is written together with it' % sorted(guards), nodes[0].lineno)
+                elif all(_under_existence_test(f.node, n, attr) for n in nodes):
+                    rep.ok('R-ATTR', f.module.rel, sym, '%s:self.%s' % (slotp, attr), 'read only inside `if getattr(self, %r, None) is not None` / hasattr' % attr, nodes[0].lineno)
                 elif all(_in_getattr(f.node, n) for n in nodes):
                     rep.ok('R-ATTR', f.module.rel, sym, '%s:self.%s' % (slotp, attr), 'read through getattr with default', nodes[0].lineno)
                 else:
@@ -204,6 +206,31 @@ def check(ix, rep):
             else:
                 rep.fail('R-STATE', upf.module.rel, upf.qual, '%s:self.%s' % (slotp, loc),
                          'update() mutates self.%s in place and reset() does not restore it' % loc, upf.node.lineno)
+        # ---- (c2) inputs: an input that an update leaves out keeps the value it was given before -> history ----
+        sv = ix.resolve_method(cls, 'set_variable_to_ast_from_dataset')
+        if sv is not None and mon.kind.startswith('discrete'):
+            cond_store = None
+            for lp in ast.walk(sv.node):
+                if isinstance(lp, ast.For):
+                    for n in ast.walk(lp):
+                        if isinstance(n, ast.Subscript) and isinstance(n.ctx, ast.Store) and ast.unparse(n.value) == 'self.ast.var_object_dict':
+                            cond_store = n
+            if cond_store is not None:
+                restored = False
+                for f in chain:
+                    for lp in ast.walk(f.node):
+                        if isinstance(lp, ast.For) and 'self.ast.' in ast.unparse(lp.iter) and ('free_vars' in ast.unparse(lp.iter) or ast.unparse(lp.iter).endswith('.vars')) \
+                                and isinstance(lp.target, ast.Name):
+                            for n in ast.walk(lp):
+                                if isinstance(n, ast.Assign) and any(ast.unparse(t) == 'self.ast.var_object_dict[%s]' % lp.target.id for t in n.targets) \
+                                        and 'create_var_from_name' in ast.unparse(n.value):
+                                    restored = True
+                slot = '%s:self.ast.var_object_dict:inputs' % slotp
+                if restored:
+                    rep.ok('R-STATE', sv.module.rel, sv.qual, slot, 'reset() gives every free variable its declared default object again', sv.node.lineno)
+                else:
+                    rep.fail('R-STATE', sv.module.rel, sv.qual, slot, 'an input is stored only when the data set of an update contains it, and read on every update: a variable the '
+                             'first update after reset() leaves out still has the value fed before the reset, a freshly built monitor reads its declared default', cond_store.lineno)
         # ---- (d) every operation the monitor can build ------------------------------------------------------
         for ncname, opc in sorted(exh.constructed_operations(ix, mon).items()):
             key = (opc.qual, rebuilds)
@@ -222,10 +249,28 @@ def check(ix, rep):
         'operation class the set of locations update() rebinds or mutates (directly, via aliases, via helper methods) must be '
         're-established by reset() through one of the idioms I1 (re-run __init__ with stored ctor args), I2 (same expression as '
         '__init__), I3 (deque(maxlen=N) refilled with N constants and __init__ calls reset), I4 (no state), I5 (interpreter rebuilds).')
-    assumptions = ['every update() supplies a value for every free variable (var_object_dict and the variable operators hold no history)',
+    assumptions = ['dense time: every update() supplies a sample list (possibly empty) for every free variable',
                    'attribute effects through setattr()/__dict__ are not modelled (none occur on these paths)',
                    'the update_final path is out of scope']
     return explanation, assumptions, 'one instance per (monitor kind, attribute read in reset), per interpreter history attribute, per operation class', {'exhaustive': True}
+
+
+def _under_existence_test(fnode, node, attr):
+    """node (a read of self.attr) lies in the body of an `if` whose test establishes that self.attr exists"""
+    parents = {}
+    for p in ast.walk(fnode):
+        for c in ast.iter_child_nodes(p):
+            parents[id(c)] = p
+    child = node
+    q = parents.get(id(node))
+    while q is not None and q is not fnode:
+        if isinstance(q, ast.If) and any(child is s or any(child is x for x in ast.walk(s)) for s in q.body):
+            t = ast.unparse(q.test).replace(' ', '').replace('"', "'")
+            if t in ("getattr(self,'%s',None)isnotNone" % attr, "hasattr(self,'%s')" % attr):
+                return True
+        child = q
+        q = parents.get(id(q))
+    return False
 
 
 def _in_getattr(fnode, n):
